@@ -45,7 +45,14 @@ ColourClauses(e) ==
       eff(u) == LET c == EffColour(ot, e.col, u) IN IF c = "" THEN e.default ELSE c
   IN IF \E i \in DOMAIN e.drawn : e.drawn[i][2] # eff(e.drawn[i][1]) THEN {"ClauseColourScope"} ELSE {}
 
+\* tex.measure on canned engine output: one box per text, in the order given
+\* {"op":"measure","texts":k,"sent":[[w,h,d],..],"got":[[w,h,d],..]}  (tenths of points)
+MeasureClauses(e) ==
+  (IF Len(e.got) # e.texts THEN {"ClauseMeasureCount"} ELSE {})
+  \cup (IF e.got # e.sent THEN {"ClauseMeasureOrder"} ELSE {})
+
 Clauses(e) == CASE e.op = "drawing" -> DrawingClauses(e)
+                [] e.op = "measure" -> MeasureClauses(e)
                 [] e.op = "colours" -> ColourClauses(e)
                 [] OTHER -> {"ClauseUnknownOp"}
 Judge(e) ==
